@@ -173,11 +173,15 @@ class Registry:
                 return Fn(self.handlers[key], key, bound=o)
             if o.tag == "ns":
                 if f"xp.{attr}" in self.handlers:
-                    return Fn(self.handlers[f"xp.{attr}"], f"xp.{attr}")
+                    h = self.handlers[f"xp.{attr}"]
+                    return Fn(h, f"xp.{attr}", bound=o if getattr(h, "_wants_mod", False) else None)
                 if f"xp.{attr}" in self.consts:
                     return self.consts[f"xp.{attr}"]
                 if attr == "__name__":
                     return Sym(z3.Const(f"name<{o.e.sexpr()}>", Misc), "str")
+                if attr in ("int8", "int16", "int32", "int64", "uint8", "bool", "bool_"):
+                    # a non-floating dtype object of an opaque namespace (only ever handed on as a `dtype=` argument)
+                    return Sym(z3.Const(f"{attr}<{o.e.sexpr()}>", Misc), "dtype")
             if attr in o.info.get("attrs", {}):
                 return o.info["attrs"][attr]
         if isinstance(o, Fn) and f"{o.name}.{attr}" in self.handlers and o.bound is None:
@@ -872,6 +876,10 @@ def install_arrays(reg: Registry):
                     return e
                 return Arr(z3.IntVal(len(items)), "bool" if boolean else "real", at, "lit(" + ",".join(skey(t) for t in items) + ")", {"lit": terms})
             return Sym(z3.Const(fresh("arr_of_list"), Misc), "arr_opaque")
+        if isinstance(x, Sym) and x.tag == "index" and not isinstance(k.get("dtype", NONE), NoneV):
+            # converting an opaque index to a *fixed* dtype is not value-preserving for every kind of index (a list of booleans turned into
+            # integers selects positions 0 / 1 instead of the masked rows): the result is a different selection unless proved otherwise
+            return Sym(z3.Const(fresh("index_cast_to_fixed_dtype"), Misc), "index")
         if isinstance(x, Sym):
             return x
         raise Unsupported(f"xp.asarray of {x!r}")
@@ -1007,6 +1015,13 @@ def install_builtins(reg: Registry):
                 (isinstance(v, Arr) and ("bytes_of" in v.meta or v.meta.get("is_bytes")))
         if nm == "dict":
             return isinstance(v, PyDict)
+        if nm in ("list", "tuple") and isinstance(v, Sym) and v.tag == "index":
+            # an opaque selection index may be a Python list or tuple (of positions or of booleans): decided once per path and index
+            kinds = i.path.ghost.setdefault("index_kind", {})
+            key = v.e.sexpr()
+            if key not in kinds:
+                kinds[key] = ("array-or-slice-or-int", "list", "tuple")[i.path.choose(3, "kind-of-the-opaque-index")]
+            return kinds[key] == nm
         if nm == "list":
             return isinstance(v, (PyList, SymList))
         if nm == "tuple":
